@@ -19,10 +19,10 @@ def isLdbl : ATy → Bool
 def ldblInSmallAgg (ty : ATy) : Bool :=
   ty.isAgg && decide (ty.size ≤ 16) && (leaves ty 0).any (fun ot => isLdbl ot.2)
 
-/-- some scalar of the aggregate does not sit at a multiple of its alignment (packed), or the aggregate is empty
-    (C06-packed-unaligned-param) -/
-def unalignedOrEmpty (ty : ATy) : Bool :=
-  ty.isAgg && (decide (ty.size = 0) || (decide (ty.size ≤ 16) && PsABI.hasUnaligned ty))
+/-- an aggregate of at most 16 bytes some scalar of which does not sit at a multiple of its alignment (packed)
+    (C06-packed-unaligned-param).  (The GNU empty struct used to be part of this region: repaired in /repo b298aee.) -/
+def packedUnaligned (ty : ATy) : Bool :=
+  ty.isAgg && decide (ty.size ≤ 16) && PsABI.hasUnaligned ty
 
 /-- no scalar starts in eightbyte `k` -/
 def eightbyteEmpty (ty : ATy) (k : Nat) : Bool :=
@@ -36,7 +36,7 @@ def paddingEightbyte (ty : ATy) : Bool :=
 /-- a type on which chibicc's classification is the psABI's -/
 def tyOk : ATy → Bool
   | .arr .. => false                    -- not an argument type (arrays decay)
-  | t => !(ldblInSmallAgg t) && !(unalignedOrEmpty t) && !(paddingEightbyte t)
+  | t => !(ldblInSmallAgg t) && !(packedUnaligned t) && !(paddingEightbyte t)
 
 /-- walking the stack arguments as the psABI places them: does one with 16-byte alignment need padding before it? -/
 def stackPadLoop : (Nat × Nat × Nat) → List ATy → Bool
@@ -69,7 +69,7 @@ def supported (s : Sig) : Bool :=
 def regionTags (s : Sig) : List String :=
   let tys := s.params ++ (match s.ret with | some t => [t] | none => [])
   (if tys.any ldblInSmallAgg then ["C06-struct-with-ldouble"] else [])
-  ++ (if tys.any unalignedOrEmpty then ["C06-packed-unaligned-param"] else [])
+  ++ (if tys.any packedUnaligned then ["C06-packed-unaligned-param"] else [])
   ++ (if tys.any paddingEightbyte then ["C06-padding-eightbyte"] else [])
   ++ (if stackAlignPad s then ["C06-ldouble-stack-align"] else [])
   ++ (if vaSmallStruct s then ["C06-va-arg-small-struct"] else [])
